@@ -260,6 +260,17 @@ class Facts:
                     return f
         return fs[0]
 
+    def overloads(self, q):
+        """distinct definitions (by signature) that share this qualified name"""
+        self._index()
+        seen = {}
+        for f in self._funcs.get(q, []):
+            if f.get('body') is not None or f.get('sig') not in seen:
+                seen.setdefault(f.get('sig'), f)
+                if f.get('body') is not None:
+                    seen[f.get('sig')] = f
+        return list(seen.values())
+
     def has_func(self, q):
         self._index()
         return q in self._funcs
